@@ -29,19 +29,39 @@ type parkedG struct {
 }
 
 type scheduler struct {
-	r       *run
-	mu      sync.Mutex
-	active  bool
-	parked  []*parkedG
-	current string
-	seen    map[string]int
-	pending int // client goroutines not yet finished
-	bad     string
+	r          *run
+	mu         sync.Mutex
+	active     bool
+	evictParks bool // the eviction tick of this round is a scheduling choice
+	parked     []*parkedG
+	current    string
+	seen       map[string]int
+	pending    int // client goroutines not yet finished
+	bad        string
 }
 
 func newScheduler(r *run) *scheduler { return &scheduler{r: r, seen: map[string]int{}} }
 
-func (s *scheduler) probeSites() int { return len(tx_pool.VerifYieldSites) }
+// probeSites returns the number of yield sites in this build, or 0 when a site the
+// scheduling discipline depends on is missing (the engine then runs sequentially).
+func (s *scheduler) probeSites() int {
+	have := map[string]bool{}
+	for _, n := range tx_pool.VerifYieldSites {
+		have[n] = true
+	}
+	need := []string{"scheduleReorgLoop:curDone", "scheduleReorgLoop:pool.reqPromoteCh", "scheduleReorgLoop:pool.reqResetCh",
+		"scheduleReorgLoop:pool.queueTxEventCh"}
+	for t := range triggers {
+		need = append(need, t)
+	}
+	for _, n := range need {
+		if !have[n] {
+			s.r.res.Probe("ilv-missing-site:" + n)
+			return 0
+		}
+	}
+	return len(tx_pool.VerifYieldSites)
+}
 
 func roleOf(site string) string {
 	switch {
@@ -74,7 +94,7 @@ var triggers = map[string]bool{
 func (s *scheduler) yield(site string) {
 	s.mu.Lock()
 	s.seen[site]++
-	if !s.active || passThrough[site] {
+	if !s.active || passThrough[site] || (site == "loop:evict.C" && !s.evictParks) {
 		s.mu.Unlock()
 		return
 	}
@@ -175,12 +195,8 @@ func (s *scheduler) run() {
 		// move the fake clock a little so that heartbeats of successive steps differ, unless a
 		// goroutine holds the pool lock (a ticker handler would block on it) or the step would
 		// fire the eviction ticker (a second stimulus for loop's select)
-		if r.pool.VerifMuFree() {
-			iv := tx_pool.VerifEvictionInterval()
-			el := time.Since(r.poolStart)
-			if (el+time.Millisecond)/iv == el/iv {
-				time.Sleep(time.Millisecond)
-			}
+		if r.pool.VerifMuFree() && !r.crossesTick(time.Millisecond) {
+			time.Sleep(time.Millisecond)
 		}
 	}
 	synctest.Wait()
@@ -272,18 +288,28 @@ func (r *run) roundInterleaved() {
 		case 3:
 			d := []time.Duration{61 * time.Second, r.cfg.Lifetime + 61*time.Second, r.cfg.Rejournal + time.Second}[t.Draw(3)]
 			sleeps++
-			r.step(" sleep %v", d)
 			r.ah.Add("sleep")
-			time.Sleep(d)
+			r.jumpInterleaved(d)
 		}
 	}
 	s.run()
 	s.mu.Lock()
 	s.active = false
+	s.evictParks = false
 	s.mu.Unlock()
 	if r.res.Infra != "" {
 		return
 	}
+	if heads > 0 && len(adds) > 0 {
+		r.res.Fault("ilv:head-change-concurrent-with-submissions")
+	}
+	if prices > 0 && len(adds) > 0 {
+		r.res.Fault("ilv:price-change-concurrent-with-submissions")
+	}
+	if r.sched.seen["loop:evict.C"] > r.evictSeen && sleeps > 0 {
+		r.res.Fault("ilv:time-jump-in-round")
+	}
+	r.evictSeen = r.sched.seen["loop:evict.C"]
 	r.judgeRound(before, st0, adds, optional, heads, prices, sleeps)
 }
 
@@ -383,4 +409,50 @@ func (r *run) judgeRound(before *model, st0 *chainView, adds []*roundAdd, option
 		r.adversarial++
 	}
 	r.check("round", optional)
+}
+
+// crossesTick: would advancing the fake clock by d fire the eviction or the journal ticker
+// of the current pool? (Both count from the pool's creation.)
+func (r *run) crossesTick(d time.Duration) bool {
+	el := time.Since(r.poolStart)
+	for _, iv := range []time.Duration{tx_pool.VerifEvictionInterval(), r.cfg.Rejournal} {
+		if (el+d)/iv != el/iv {
+			return true
+		}
+	}
+	return false
+}
+
+// jumpInterleaved advances the fake clock by about d inside a round. Go picks at random among
+// the ready cases of loop's select, so the ticks of the jump are handled with the yield points
+// switched off (one after the other, as in sequential mode; coinciding eviction and rotation
+// commute) - except the last eviction tick when no journal tick coincides with it: that one
+// fires with the yield points on and becomes a scheduling choice of the round.
+func (r *run) jumpInterleaved(d time.Duration) {
+	s := r.sched
+	iv := tx_pool.VerifEvictionInterval()
+	el := time.Since(r.poolStart)
+	last := (el + d) / iv * iv // last eviction deadline within the jump, as time since pool start
+	lone := last > el && last%r.cfg.Rejournal != 0
+	s.mu.Lock()
+	s.active = false
+	s.mu.Unlock()
+	if !lone {
+		r.step(" sleep %v (ticks handled sequentially)", d)
+		time.Sleep(d)
+		synctest.Wait()
+		s.mu.Lock()
+		s.active = true
+		s.mu.Unlock()
+		return
+	}
+	r.step(" sleep %v (last eviction tick scheduled)", last-el)
+	time.Sleep(last - el - time.Millisecond)
+	synctest.Wait()
+	s.mu.Lock()
+	s.active = true
+	s.evictParks = true
+	s.mu.Unlock()
+	time.Sleep(time.Millisecond)
+	synctest.Wait()
 }
